@@ -484,11 +484,15 @@ def _check_disambiguate(ctx, model):
                "replacement names do not come from a unique-name generator "
                "seeded with the union of both streams' identifiers")
         # filter consulted on the clash
-        filt_ok = any(
-            pol and isinstance(v, tuple) and (
+        def is_filter_call(v):
+            return isinstance(v, tuple) and (
                 (v[0] == "call" and v[1] == filt and v[2] == (K,))
                 or (v[0] == "inlined" and v[1] == filt))
-            for _, pol, v in ps.conds)
+        filt_ok = any(pol and is_filter_call(v) for _, pol, v in ps.conds)
+        # ... or as the filter of a comprehension
+        if not filt_ok and len(subst) > 4:
+            filt_ok = any(is_filter_call(getattr(c, "val", None))
+                          for c in subst[4])
         ctx.ob("P/disambiguate/filter", filt_ok, loc,
                "a clash is renamed only if the caller's filter accepts it"
                if filt_ok else
